@@ -13,7 +13,9 @@ Verdict(r) ==
   IF HasField(r, "fps")
   THEN LET w == Write(r.fps)
            p == Parse(w, FALSE)
-       IN [id |-> r.id, rt |-> p.ok /\ PatchEq(p.fps, r.fps) /\ Write(p.fps) = w, written |-> w]
+           kept == SelectSeq(r.fps, LAMBDA fp : ~IsCopyOnly(fp))
+       IN IF kept = r.fps THEN [id |-> r.id, rt |-> p.ok /\ PatchEq(p.fps, r.fps) /\ Write(p.fps) = w, written |-> w, lossy |-> FALSE]
+          ELSE [id |-> r.id, rt |-> p.ok /\ PatchEq(p.fps, kept), written |-> w, lossy |-> TRUE]
   ELSE LET p == Parse(r.toks, r.trunc)
        IN IF p.ok THEN [id |-> r.id, ok |-> TRUE, err |-> "", nfps |-> Len(p.fps), fps |-> p.fps]
           ELSE [id |-> r.id, ok |-> FALSE, err |-> p.err, nfps |-> 0, fps |-> <<>>]
